@@ -156,6 +156,82 @@ def completedOf : List Event → List Int
   | .completed p :: es => p :: completedOf es
   | _ :: es => completedOf es
 
+/-! ### several `optimize()` calls on one instance
+
+Attributes that survive from one call to the next, and what the start of `optimize()` does to them
+(goal_programming_mixin.py 670-689, single_pass_goal_programming_mixin.py 326-349):
+
+* `self.__results`               NOT reset (the old list stays until a priority of the new run succeeds)
+* `self.__results_are_current`   reset to `False` before the priority loop
+* `self._gp_first_run`, `self.skip_priority` (multi-pass), constraint stores, epsilon/parameter lists:
+  reset (they do not influence which results are exposed)
+* the base class's solver output  NOT reset (overwritten by the next solver call only)
+-/
+
+/-- what one instance carries from one `optimize()` call to the next -/
+structure Persist where
+  results : Option (Nat × Int)          -- `self.__results`: (run, priority) of the solve it was captured from
+  current : Bool                        -- `self.__results_are_current`
+  lastRaw : Option (Nat × Int × Bool)   -- base class: (run, priority, outcome) of the most recent solver call
+deriving Repr, DecidableEq
+
+/-- right after `__init__` -/
+def Persist.init : Persist := ⟨none, false, none⟩
+
+/-- one `optimize()` call: goals as `goals()/path_goals()` return them now, the hook, the solver -/
+structure RunSpec where
+  gs : List Goal
+  skip : Int → Bool
+  oracle : Nat → Bool    -- outcome of the k-th solver call of THIS run
+
+/-- what `extract_results()` returns on an instance that has been optimized several times -/
+inductive ExposedS where
+  | cached (run : Nat) (p : Int)
+  | raw (run : Nat) (p : Int) (ok : Bool)
+  | nothing
+  | broken      -- `__results_are_current` set although `__results` was never assigned (AttributeError)
+deriving Repr, DecidableEq
+
+def exposedS (st : Persist) : ExposedS :=
+  if st.current then
+    match st.results with
+    | some (r, p) => .cached r p
+    | none => .broken
+  else
+    match st.lastRaw with
+    | some (r, p, ok) => .raw r p ok
+    | none => .nothing
+
+/-- the `k`-th call of `optimize()` on an instance in state `st`.  `reset = true` is the code
+    (`self.__results_are_current = False` before the loop); `reset = false` is the variant without
+    that line, kept for the witness that the line is not redundant.  Inside the run the flag only
+    changes when a priority succeeds, so the run itself is `optimize`. -/
+def runOnce (v : Variant) (reset : Bool) (k : Nat) (st : Persist) (r : RunSpec) : Persist × Out :=
+  let cur0 := if reset then false else st.current
+  let o := optimize v r.gs r.skip r.oracle
+  let st' : Persist :=
+    { results := match o.cache with
+        | some p => some (k, p)
+        | none => st.results
+      current := match o.cache with
+        | some _ => true
+        | none => cur0
+      lastRaw := match o.lastRaw with
+        | some (p, ok) => some (k, p, ok)
+        | none => st.lastRaw }
+  (st', o)
+
+/-- consecutive calls; for every call its own log/return value and what is exposed after it -/
+def seqFrom (v : Variant) (reset : Bool) : Nat → Persist → List RunSpec → List (Out × ExposedS)
+  | _, _, [] => []
+  | k, st, r :: rs =>
+    let x := runOnce v reset k st r
+    (x.2, exposedS x.1) :: seqFrom v reset (k + 1) x.1 rs
+
+/-- `optimize()` called once per element of `rs` on a fresh instance -/
+def optimizeSeq (v : Variant) (rs : List RunSpec) : List (Out × ExposedS) :=
+  seqFrom v true 0 Persist.init rs
+
 /-- outcome oracle from a finite script; calls beyond the script succeed -/
 def scriptOracle (script : List Bool) (k : Nat) : Bool := script.getD k true
 
